@@ -96,7 +96,8 @@ class Resource(BaseResource):
         release = BoundClass(Release)
 
     def _do_put(self, event: Request) -> bool:
-        if len(self._users) < self.capacity:
+        # one more user must still fit (capacity need not be integral)
+        if len(self._users) + 1 <= self.capacity:
             self._users.append(event)
             event.usage_since = self._env.now
             event.succeed()
@@ -207,7 +208,7 @@ class PreemptiveResource(PriorityResource):
     users: List[PriorityRequest]  # type: ignore
 
     def _do_put(self, event: PriorityRequest) -> bool:
-        if len(self.users) >= self.capacity and event.preempt:
+        if self.users and len(self.users) + 1 > self.capacity and event.preempt:
             # Check if we can preempt another process
             preempt = sorted(self.users, key=lambda e: e.key)[-1]
             if preempt.key > event.key:
